@@ -356,14 +356,22 @@ structure HField where
 /-- `strings.EqualFold` on the ASCII identifiers the generators use -/
 def eqFold (a b : String) : Bool := a.toLower == b.toLower
 
+/-- `strings.TrimSpace` (ASCII white space; the column texts of header and reference are trimmed before they are compared) -/
+def trimSpace (s : String) : String :=
+  String.ofList ((s.toList.dropWhile Char.isWhitespace).reverse.dropWhile Char.isWhitespace).reverse
+
+/-- `strings.EqualFold(strings.TrimSpace(h[i].Column), column)` -/
+def colEq (f : HField) (column : String) : Bool := eqFold (trimSpace f.name) column
+
+/-- `name` is the trimmed column text of the reference -/
 def fieldMatches (view : Option String) (name : String) (f : HField) : Bool :=
   match view with
-  | some v => eqFold f.view v && eqFold f.name name
-  | none => eqFold f.name name || f.aliases.any (fun a => eqFold a name)
+  | some v => eqFold f.view v && colEq f name
+  | none => colEq f name || f.aliases.any (fun a => eqFold name a)
 
 /-- `isEqual && h[i].IsJoinColumn` of an unqualified reference: stop here -/
 def joinWins (view : Option String) (name : String) (f : HField) : Bool :=
-  view.isNone && eqFold f.name name && f.isJoin
+  view.isNone && colEq f name && f.isJoin
 
 /-- the loop of `FieldIndex`: `i` = current position, `idx` = the match found so far -/
 def fieldIndexGo (view : Option String) (name : String) : List HField â†’ Nat â†’ Option Nat â†’ Except ResErr Nat
@@ -378,7 +386,7 @@ def fieldIndexGo (view : Option String) (name : String) : List HField â†’ Nat â†
     else fieldIndexGo view name fs (i + 1) idx
 
 def fieldIndex (h : List HField) (view : Option String) (name : String) : Except ResErr Nat :=
-  fieldIndexGo view name h 0 none
+  fieldIndexGo view (trimSpace name) h 0 none
 
 /-- `View.Fix` (labels = select labels) : the flags of the join are gone -/
 def fixHeader (labels : List String) (h : List HField) : List HField :=
